@@ -303,6 +303,7 @@ class Normaliser:
 
     # ---- driver
     def run(self):
+        self.n35_dead_code()
         self.n1_module_constants()
         self.n1b_class_constants()
         self.n32_kwargs_helpers()
@@ -344,6 +345,113 @@ class Normaliser:
                 from .model import AnalysisError
                 raise AnalysisError(f'normalisation produced an ill-formed module {rel}: {e}')
         return self
+
+    # ---- N35
+    _PURE_BUILTINS = {'len', 'list', 'tuple', 'reversed', 'sorted', 'enumerate', 'range', 'zip', 'str', 'int', 'float', 'bool', 'abs', 'min', 'max',
+                      'isinstance', 'getattr', 'hasattr', 'id', 'repr', 'type', 'set', 'dict', 'sum', 'any', 'all'}
+
+    def _effect_free(self, e) -> bool:
+        for x in ast.walk(e):
+            if isinstance(x, (ast.Yield, ast.YieldFrom, ast.Await, ast.NamedExpr, ast.Lambda)):
+                return False
+            if isinstance(x, ast.Call) and not (isinstance(x.func, ast.Name) and x.func.id in self._PURE_BUILTINS):
+                return False
+        return True
+
+    def n35_dead_code(self):
+        """Code that was ADDED without effect on anything the package reads:
+        (a) a `for` loop that only looks - its body assigns plain local names (call-free values), prints or passes, its iterable is built from
+            attribute reads and pure builtins, and none of the names it binds is read anywhere outside the loop - is removed;
+        (b) an attribute `self._x` that is written in methods and read NOWHERE in the package except inside the right-hand sides of its own
+            assignments (a call counter, a debug stamp) - its assignments are removed when their right-hand side is effect-free.
+        Both are dead stores in the strict sense; removing them keeps unrolling bounds and "no effect before validation" rules from reacting to
+        bookkeeping that no behaviour depends on."""
+        def inert(stmts, stored):
+            for st in stmts:
+                if isinstance(st, (ast.Pass, ast.Continue, ast.Break)):
+                    continue
+                if isinstance(st, ast.Expr) and (isinstance(st.value, ast.Constant) or (isinstance(st.value, ast.Call) and isinstance(st.value.func, ast.Name)
+                                                                                         and st.value.func.id == 'print')):
+                    continue
+                if isinstance(st, (ast.Assign, ast.AugAssign, ast.AnnAssign)):
+                    tg = st.targets if isinstance(st, ast.Assign) else [st.target]
+                    if all(isinstance(t, ast.Name) for t in tg) and st.value is not None and self._effect_free(st.value):
+                        stored.update(t.id for t in tg)
+                        continue
+                    return False
+                if isinstance(st, ast.If) and self._effect_free(st.test) and inert(st.body, stored) and inert(st.orelse, stored):
+                    continue
+                return False
+            return True
+        # (a)
+        for rel, tree in self.trees.items():
+            for fn in fn_nodes(tree):
+                changed = True
+                while changed:
+                    changed = False
+                    for n in ast.walk(fn):
+                        for f in ('body', 'orelse', 'finalbody'):
+                            b = getattr(n, f, None)
+                            if not (isinstance(b, list) and b and isinstance(b[0], ast.stmt)):
+                                continue
+                            for i, st in enumerate(b):
+                                if not (isinstance(st, ast.For) and not st.orelse and self._effect_free(st.iter)):
+                                    continue
+                                stored = {x.id for x in ast.walk(st.target) if isinstance(x, ast.Name)}
+                                if not all(isinstance(x, (ast.Name, ast.Tuple, ast.List)) for x in ast.walk(st.target) if not isinstance(x, ast.expr_context)):
+                                    continue
+                                if not inert(st.body, stored):
+                                    continue
+                                inside = {id(x) for x in ast.walk(st)}
+                                read_outside = any(isinstance(x, ast.Name) and x.id in stored and id(x) not in inside and isinstance(x.ctx, (ast.Load, ast.Del))
+                                                   for x in ast.walk(fn))
+                                # a name also bound outside the loop keeps its outside value only if the loop never runs: not dead
+                                bound_outside = any(isinstance(x, ast.Name) and x.id in stored and id(x) not in inside and isinstance(x.ctx, ast.Store)
+                                                    for x in ast.walk(fn)) or any(a.arg in stored for a in fn.args.args + fn.args.kwonlyargs)
+                                if read_outside or bound_outside:
+                                    continue
+                                b[i] = ast.copy_location(ast.Pass(), st)
+                                self.note('N35_dead_scan_loop', f'{rel}:{fn.name} line {st.lineno}')
+                                changed = True
+        # (b)
+        loads: Dict[str, int] = {}
+        writes: Dict[str, list] = {}
+        for rel, tree in self.trees.items():
+            own_rhs = set()
+            for n in ast.walk(tree):
+                if isinstance(n, (ast.Assign, ast.AugAssign)):
+                    tg = n.targets if isinstance(n, ast.Assign) else [n.target]
+                    if len(tg) == 1 and isinstance(tg[0], ast.Attribute) and isinstance(tg[0].value, ast.Name) and tg[0].value.id == 'self':
+                        a = tg[0].attr
+                        writes.setdefault(a, []).append((rel, n))
+                        for x in ast.walk(n.value):
+                            # reads of the attribute inside its own update (self._n or getattr(self, '_n', 0)) do not count
+                            if isinstance(x, ast.Attribute) and x.attr == a:
+                                own_rhs.add(id(x))
+                            if isinstance(x, ast.Constant) and x.value == a:
+                                own_rhs.add(id(x))
+                        if isinstance(n, ast.AugAssign):
+                            own_rhs.add(id(tg[0]))
+            for n in ast.walk(tree):
+                if isinstance(n, ast.Attribute) and isinstance(n.ctx, (ast.Load, ast.Del)) and id(n) not in own_rhs:
+                    loads[n.attr] = loads.get(n.attr, 0) + 1
+                elif isinstance(n, ast.Constant) and isinstance(n.value, str) and id(n) not in own_rhs:
+                    loads[n.value] = loads.get(n.value, 0) + 1          # getattr(obj, 'name') / dict key / message: treated as a read
+        for a, ws in writes.items():
+            if loads.get(a) or not is_private(a) or a.startswith('__') or a in self.vocab:
+                continue
+            if not all(self._effect_free(n.value) for _, n in ws):
+                continue
+            dead = {id(n) for _, n in ws}
+            for rel, tree in self.trees.items():
+                for n in ast.walk(tree):
+                    for f in ('body', 'orelse', 'finalbody'):
+                        b = getattr(n, f, None)
+                        if isinstance(b, list) and b and isinstance(b[0], ast.stmt):
+                            for i, st in enumerate(b):
+                                if id(st) in dead:
+                                    b[i] = ast.copy_location(ast.Pass(), st)
+                                    self.note('N35_dead_attribute', f'{rel}: self.{a} line {st.lineno}')
 
     # ---- N1
     @staticmethod
